@@ -176,13 +176,55 @@ CHECKS = {
         technique="two-run trace validation with TLC (lock-step comparison of recorded pipeline stages)",
         design_ref="5/C16",
     ),
+    "C02": dict(
+        category="model_checking",
+        text="PyMini.tla is a big-step semantics of a Python fragment (if/while/for with else, break, continue, "
+             "return, raise, try/except/finally; one statement per line) that predicts executed lines, decision "
+             "outcomes, side effects and the way the function ends. TLC enumerates every program of the universe x "
+             "every decision vector; each case is rendered to Python, run uninstrumented under sys.monitoring "
+             "(interpreter ground truth) and through Pynguin's real import hook; TLC validates ReportedLinesExact "
+             "and NoForeignLines on every case and cross-checks the semantics' own prediction against the "
+             "interpreter (0 mismatches = the TLA+ semantics is right for the fragment).",
+        note="Exhaustive for programs with one compound statement (bodies of <= 2 simple statements) x decision "
+             "vectors of length 3 (quick: 3 vectors per program), thorough adds 12000 nested depth-2 cases; Python "
+             "outside the fragment (comprehensions, generators, with, match, closures, classes) is not covered.",
+        technique="TLA+ operational semantics + TLC case enumeration replayed on real instrumentation; sys.monitoring ground truth; TLC trace validation",
+        design_ref="4.6, 5/C02",
+    ),
+    "C03": dict(
+        category="model_checking",
+        text="Same PyMini universe as C02. For every case the outcomes taken at every deciding line (if, while "
+             "entry and back-edge tests, for-loop iteration/exhaustion, except-clause match) are derived from "
+             "sys.monitoring BRANCH events of the uninstrumented code object and compared by TLC with the outcomes "
+             "Pynguin's trace reports as covered (BranchOutcomesExact); the number of registered predicates per "
+             "line must equal the number of reachable conditional jumps / FOR_ITER (PredicatesRegistered) and "
+             "the code object must be reported as entered.",
+        note="Comparison per source line (union over the jumps of that line) with Pynguin's own polarity rules per "
+             "opcode; jumps in dead handlers (try body cannot raise) are not expected to be registered. Boolean "
+             "operators, chained comparisons and match statements are outside the fragment.",
+        technique="TLA+ operational semantics + TLC case enumeration replayed on real instrumentation; sys.monitoring ground truth; TLC trace validation",
+        design_ref="4.6, 5/C03",
+    ),
+    "C01": dict(
+        category="model_checking",
+        text="(b) the C04 enumeration of comparison kinds x value classes on the real tracer callbacks: no user "
+             "operator beyond those of the original operation, no iterator consumption, raises only if the "
+             "operation raises (ObserveOnly, OnlyRaisesIfOpRaises); (c) every PyMini program x decision vector run "
+             "uninstrumented and instrumented under rotating metric combinations (BRANCH, LINE, CHECKED; dynamic "
+             "seeding always installed): instrumentation succeeds and return value, exception type and side-effect "
+             "markers are identical (InstrumentationSucceeds, BehaviourPreserved).",
+        note="The abstract stack machine of DESIGN 4.5 (part a) is not built. Side effects = list markers, return "
+             "value, exception type; the PyMini fragment only.",
+        technique="TLA+ specs (TracerOps, PyMini) + TLC enumeration replayed on the real tracer / import hook; TLC trace validation",
+        design_ref="4.3, 4.6, 5/C01",
+    ),
 }
 
 NOT_BUILT_REASON = "not built yet in this round (planned, see DESIGN.md section 5); no claim is made"
 NOT_APPLICABLE = {}
 
 # builder-delivered checks are only claimed once reviewed and listed here
-READY = {"C27", "C10", "C11", "C14", "C28", "C20", "C23", "C13"}  # C12, C29 pending re-run
+READY = {"C27", "C10", "C11", "C14", "C28", "C20", "C23", "C13", "C12", "C29", "C06", "C07"}
 
 
 def _load_from_notes() -> None:
